@@ -1,6 +1,6 @@
 (* Function table for the function-level correspondence check.  The ids are
    mirrored in harness/fnids.go. *)
-From OTR Require Import Go.Base Gen.Consts Corr.Val Bytes.Wire Bytes.Msgs Bytes.Strconv Bytes.B64 Bytes.Frag Bytes.Text.
+From OTR Require Import Go.Base Gen.Consts Corr.Val Bytes.Wire Bytes.Msgs Bytes.Strconv Bytes.B64 Bytes.Frag Bytes.Text Proto.Group.
 Open Scope N_scope.
 
 Definition v_rest_n (o : option (bytes * N)) : val :=
@@ -108,6 +108,7 @@ Definition dispatch_text (fn : N) (a : list val) : val :=
   | 51 => vopt VB (b64decode (argB a 0))
   | 52 => match decode (argB a 0) with Ok d => VB d | Err _ => VNone | Panic => VPanic end
   | 53 => VB (encode (argB a 0))
+  | 90 => vbool (isGroupElementN (argN a 0) (argN a 1))
   | 80 => match dataMsg_deser (argB a 0) with Ok c => v_dataMsg c | Err _ => VNone | Panic => VPanic end
   | 60 => VB (fragPrefix (argN a 0 =? 3) (argN a 1) (argN a 2) (argN a 3) (argN a 4))
   | 61 => VL (map VB (fragment (argN a 0 =? 3) (argN a 1) (argN a 2) (argB a 3) (argN a 4)))
